@@ -62,11 +62,15 @@ def main():
             {"name": "A", "path": "lib/astlib.py", "serves_properties": sorted(p for p in claims if "A" in claims[p]["engine"].split("+")), "kind_free_text": "repository-specific rules over the type-checked syntax tree"},
             {"name": "J", "path": "lib/jet.py", "serves_properties": sorted(p for p in claims if "J" in claims[p]["engine"].split("+")), "kind_free_text": "truncated-series abstract domain for sibling agreement of small-angle switches"},
             {"name": "W", "path": "lib/wit.py", "serves_properties": sorted(p for p in claims if "W" in claims[p]["engine"].split("+")), "kind_free_text": "compile-fail / static_assert witnesses"},
+            {"name": "P", "path": "lib/poly.py", "serves_properties": sorted(p for p in claims if "P" in claims[p]["engine"].split("+")), "kind_free_text": "path-wise polynomial / rational-function abstract interpretation of the optimized LLVM IR of loop-free witnesses (exact identities modulo representation constraints)"},
+            {"name": "R", "path": "lib/rays.py", "serves_properties": sorted(p for p in claims if "R" in claims[p]["engine"].split("+")), "kind_free_text": "power series along rational rays as an abstract domain over the optimized LLVM IR (identity testing of transcendental closed forms against their defining series)"},
+            {"name": "RND", "path": "props/roundir.py", "serves_properties": sorted(p for p in claims if "RND" in claims[p]["engine"].split("+")), "kind_free_text": "first-order rounding-bound and case-split-continuity abstract interpretation of the optimized LLVM IR over a grid of rotation angles"},
+            {"name": "M", "path": "lib/mach.py", "serves_properties": sorted(p for p in claims if "M" in claims[p]["engine"].split("+")), "kind_free_text": "abstract machine over the clang AST: function bodies executed on free / symbolic models (free group, free Lie algebra, symbolic tables, sentinel hosts, scripted oracles), path splitting on undecided comparisons"},
             {"name": "I", "path": "lib/ir.py", "serves_properties": sorted(p for p in claims if "I" in claims[p]["engine"].split("+")), "kind_free_text": "effect / write-set / dependence / zero-structure facts from optimized LLVM IR of API-level witness functions"},
         ],
         "checks": checks,
         "not_applicable": na_list,
-        "notes": "Static analysis only: no registered check executes library code on inputs. Exit 0 held / 1 VIOLATION / 2 analysis-broken (tool missing, anchor vanished, rule matched fewer instances than confirmed). Genuine defects found while building were repaired in /repo as fix: commits and are listed under 'fixed' in known_findings.json.",
+        "notes": "Static analysis only: no registered check compiles-and-runs library code on inputs; abstract execution happens on abstract values inside the checker. Exit 0 held / 1 VIOLATION / 2 analysis-broken (tool missing, anchor vanished, rule matched fewer instances than confirmed). Genuine defects found while building were repaired in /repo as fix: commits and are listed under 'fixed' in known_findings.json.",
     }
     json.dump(man, open(os.path.join(HERE, "MANIFEST.json"), "w"), indent=1)
     print("MANIFEST.json: %d checks, %d not applicable" % (len(checks), len(na_list)))
